@@ -15,13 +15,23 @@ RULE = ("frame lists with lengths around 0/1/255/256/65535/65536 and random cont
         "positions for short streams, random otherwise); malformed streams (random bytes, command frames, truncations); "
         "heartbeat send/recv; request sequences (execute/complete/is_complete/kernel_info/comm/unknown) with valid "
         "signatures, single-bit corruptions and wrong keys, pushed through the real shell_listen.  A case is non-trivial "
-        "when it has at least one frame / request; distinct by payload.")
+        "when it has at least one frame / request; distinct by payload.  Round 4: greetings (valid / wrong signature, version, "
+        "mechanism / garbage / HTTP / truncated) x fragmentations through the real handshake; wire frame lists (identity "
+        "counts 0-6, delimiter missing / doubled / as identity, short, bad JSON / UTF-8, bad and non-hex signatures, extra "
+        "buffers) through deserialize_wire_msg and send; sessions of 1-18 messages over the real shell / control / iopub / stdin "
+        "listeners with every message type, malformed messages and pathological-but-legal code strings; housekeeping queues; "
+        "heartbeat pings; whole shell connections fed malformed byte streams next to a healthy connection.")
 ASSUMPTIONS = [
     "asyncio.StreamReader.read(k) returns a non-empty prefix of the buffered bytes (modelled by readChunk)",
     "hmac/hashlib are a MAC: modelled as an uninterpreted function `sign` (C19_auth is decision logic over it)",
     "json encoding/decoding and uuid/date header fields are masked, not modelled",
+    "round 4: whether a frame decodes as JSON, what the decoded request says, what AstEval.parse does with a code string (class of "
+    "the exception, its message test, its lineno) and the result of a cell are computed from the real objects and passed to the model",
+    "LinenoSane: a line number reported by CPython's parser lies inside the source (checked on every generated code string)",
 ]
 TRUSTED = ["tools/extract.py (ZMTP constants from the AST of send_multipart/send/recv)",
+           "tools/extractors/C19.py (reply tables and branch shapes of shell_handler / control_listen, greeting literals and read "
+           "sizes of handshake, send_cmd constants)",
            "harness/run_C19.py (in-memory streams, canonicalisation)",
            "modelled not verified: asyncio streams, hmac, json; the interpreter run of a cell is the parameter `run`"]
 
@@ -1683,6 +1693,18 @@ def shell_verdict(c):
 
 def common_hex(b):
     return hx(b)
+
+
+def extra_coverage(cases):
+    hs = [c for c in cases if c.payload.get("kind") == "hs"]
+    inv = [c for c in hs if c.payload["what"] not in ("valid", "short") and (c.impl or "").startswith("ok ")]
+    ends = {}
+    for c in cases:
+        if c.payload.get("kind") == "conn" and c.impl:
+            key = c.payload["spec"]["fault"] + "->" + c.impl.split(" end=")[-1].split()[0]
+            ends[key] = ends.get(key, 0) + 1
+    return {"invalid_greetings_accepted_by_handshake (C19_handshake_cex, recorded not judged)": len(inv),
+            "connection_faults_to_outcome": ends}
 
 
 def classify(c, reason):
